@@ -42,6 +42,12 @@ RANDOM_K = {"quick": 8, "thorough": 120}
 
 
 def gen_base(rng, tier, index):
+    if index == 13 or (tier == "thorough" and index % 40 == 13):
+        # 140 writer processes (one id each, one after the other): more writer files than any cap on open read handles
+        nwr = 140 if tier == "quick" else rng.choice([140, 300])
+        return {"kind": "storage", "pool": "storage", "workers": nwr, "writers": [[[g, 0, 0]] for g in range(nwr)], "readers": 0,
+                "presize": None, "extra_ids": [nwr + 1], "parent_polls": False, "parent_writes_late": True, "seed": rng.randrange(1 << 20),
+                "max_reads": 0, "calls": [], "sequential_writers": True, "no_sweep": True, "limit_factor": 3, "parent_iterates": False}
     nw = rng.choice([1, 2, 2, 3, 4])
     style = index % 6
     nids = rng.randint(2, 10)
